@@ -468,7 +468,9 @@ impl<T: AsRef<[u8]> + AsMut<[u8]>> Packet<T> {
     #[inline]
     pub fn clear_reserved(&mut self) {
         match self.msg_type() {
-            Message::RouterSolicit
+            Message::DstUnreachable
+            | Message::TimeExceeded
+            | Message::RouterSolicit
             | Message::NeighborSolicit
             | Message::NeighborAdvert
             | Message::Redirect => {
@@ -762,6 +764,7 @@ impl<'a> Repr<'a> {
             } => {
                 packet.set_msg_type(Message::DstUnreachable);
                 packet.set_msg_code(reason.into());
+                packet.clear_reserved();
 
                 emit_contained_packet(packet, header, data);
             }
@@ -781,6 +784,7 @@ impl<'a> Repr<'a> {
             } => {
                 packet.set_msg_type(Message::TimeExceeded);
                 packet.set_msg_code(reason.into());
+                packet.clear_reserved();
 
                 emit_contained_packet(packet, header, data);
             }
